@@ -229,12 +229,33 @@ def dispatch(eng: Engine, ctx: Ctx, rid: str) -> int:
     ctx.touch(func=sel.qualname, file=eng.repo.relpath(sel.module))
     n = 0
     bad = 0
+    # a selector that reads the message number off the payload itself is folded with the leading bytes that encode the identity
+    # (that the identity is those bits is C15-D1)
+    pf = None
+    try:
+        sp = eng.symeval(f"{eng.message_cls}.payload")
+        prets = [e for e in sp.effects if e.kind == "return"]
+        if len(prets) == 1 and prets[0].term[0] == "field":
+            pf = prets[0].term
+    except Exception:  # noqa: BLE001
+        pf = None
+
+    def lead_bytes(ident):
+        try:
+            mid = int(ident[:4])
+            sub = int(ident[5:]) if "_" in ident else 0
+        except ValueError:
+            return {}
+        return {0: mid >> 4, 1: ((mid & 0xF) << 4) | (sub >> 7 & 1), 2: (sub & 0x7F) << 1}
+
     for tname, ident, d, prov in T.definitions():
         n += 1
 
         def ov(t, ident=ident):
             if t == ("field", "identity"):
                 return ("const", ident)
+            if pf is not None and t[0] == "idx" and t[1] == pf and is_const(t[2]) and t[2][1] in lead_bytes(ident):
+                return ("const", lead_bytes(ident)[t[2][1]])
             return None
 
         se = eng.symeval(sel.qualname, override=ov)
